@@ -3,6 +3,7 @@ mod families;
 mod gosem;
 mod irck;
 mod oracle;
+mod projects;
 mod sched;
 mod ug;
 
